@@ -149,6 +149,88 @@ def rename_twins(repo, rels=None) -> List[Tuple[str, Dict[str, str]]]:
     return out
 
 
+def rename_all_locals(src: str) -> str:
+    """Every function of the module gets all its renamable locals renamed (one pass, innermost functions first)."""
+    tree = ast.parse(src)
+    funcs = [n for n in ast.walk(tree) if isinstance(n, (ast.FunctionDef, ast.AsyncFunctionDef))]
+    for f in funcs:
+        params = {a.arg for a in f.args.args + f.args.kwonlyargs + getattr(f.args, "posonlyargs", [])}
+        if f.args.vararg:
+            params.add(f.args.vararg.arg)
+        if f.args.kwarg:
+            params.add(f.args.kwarg.arg)
+        sc = _Scope()
+        for st in f.body:
+            sc.visit(st)
+        names = {n for n in sc.bound if n not in params and n not in sc.keep and n not in SKIP_NAMES and not (n.startswith("__") and n.endswith("__")) and not n.endswith("_rn")}
+        if not names or _nested_rebinds(f, names):
+            continue
+        mapping = {n: f"{n}_rn" for n in names}
+        f.body = [_Rename(mapping).visit(st) for st in f.body]
+    ast.fix_missing_locations(tree)
+    return ast.unparse(tree) + "\n"
+
+
+def mutant_rename_sweep(props, repo="/repo", jobs=16, twins=False):
+    """Every mutant of selftest_data, with all locals of the edited modules renamed on top: the mutant must still be reported
+    (with twins=True: every twin, renamed on top, must stay silent)."""
+    from .selftest_data import MUTANTS, TWINS
+
+    if twins:
+        MUTANTS = TWINS
+
+    tasks, meta = [], {}
+    for p in props:
+        base = _baseline_keys(p, repo)
+        for m in MUTANTS.get(p, []):
+            overlay, ok = {}, True
+            for rel, old, new in m["edits"]:
+                src = overlay.get(rel) or _read(repo, rel)
+                if old not in src:
+                    ok = False
+                    break
+                overlay[rel] = src.replace(old, new, 1)
+            if not ok:
+                continue
+            try:
+                overlay = {rel: rename_all_locals(src) for rel, src in overlay.items()}
+            except SyntaxError:
+                continue
+            tasks.append((p, repo, m["id"], overlay, base))
+    survivors, n = [], 0
+    with ProcessPoolExecutor(max_workers=jobs) as ex:
+        for prop, vid, status, detail in ex.map(_run, tasks, chunksize=2):
+            n += 1
+            if (status != "violation") if not twins else (status != "silent"):
+                survivors.append((prop, vid, status, detail[:1]))
+    return {"runs": n, "survivors": survivors}
+
+
+def seeded_rename_sweep(props, repo="/repo", jobs=16):
+    """Every seeded change, with all locals of the patched modules renamed on top, must still be reported."""
+    from .selftest import apply_patch_overlay, seeded_variants
+
+    tasks = []
+    for p in props:
+        base = _baseline_keys(p, repo)
+        for name, patch_p, _meta in seeded_variants(p, repo):
+            ov = apply_patch_overlay(repo, patch_p)
+            if ov is None:
+                continue
+            try:
+                ov = {rel: rename_all_locals(src) for rel, src in ov.items()}
+            except SyntaxError:
+                continue
+            tasks.append((p, repo, "seeded:" + name, ov, base))
+    survivors, n = [], 0
+    with ProcessPoolExecutor(max_workers=jobs) as ex:
+        for prop, vid, status, detail in ex.map(_run, tasks, chunksize=1):
+            n += 1
+            if status != "violation":
+                survivors.append((prop, vid, status, detail[:1]))
+    return {"runs": n, "survivors": survivors}
+
+
 def reformat_twins(repo, rels=None) -> List[Tuple[str, Dict[str, str]]]:
     out = []
     for rel in rels or _module_files(repo):
@@ -188,8 +270,13 @@ def sweep(props, repo="/repo", kinds=("rename", "reformat"), rels=None, jobs=16,
         variants += rename_twins(repo, rels)
     tasks = []
     for p in props:
-        base = _baseline_keys(p, repo)
+        ctx0, results0, _ = run_property(p, repo, "quick")
+        base = {(r.rule, r.construct) for r in results0 if r.verdict == VIOLATION}
+        consulted = {m.replace(".", "/") + ".py" for m in ctx0.model.consulted} | {m.replace(".", "/") + "/__init__.py" for m in ctx0.model.consulted}
         for vid, ov in variants:
+            # a rule can only be disturbed by a module it consults
+            if not (set(ov) & consulted):
+                continue
             tasks.append((p, repo, vid, ov, base))
     alarms = []
     n = 0
@@ -211,6 +298,18 @@ def main(argv):
         kinds = (argv[argv.index("--kind") + 1],)
     if "--module" in argv:
         rels = [argv[argv.index("--module") + 1]]
+    if kinds == ("seeded-rename",):
+        r = seeded_rename_sweep(props)
+        print(f"seeded changes under renaming of every local: {r['runs']} runs, {len(r['survivors'])} not reported")
+        for sv in r["survivors"]:
+            print("   SURVIVED", sv)
+        return 1 if r["survivors"] else 0
+    if kinds in (("mutant-rename",), ("twin-rename",)):
+        r = mutant_rename_sweep(props, twins=kinds == ("twin-rename",))
+        print(f"{'twins' if kinds == ('twin-rename',) else 'mutants'} under renaming of every local: {r['runs']} runs, {len(r['survivors'])} {'alarms' if kinds == ('twin-rename',) else 'not reported'}")
+        for sv in r["survivors"]:
+            print("   SURVIVED", sv)
+        return 1 if r["survivors"] else 0
     r = sweep(props, kinds=kinds, rels=rels, verbose="-v" in argv)
     print(f"auto twins: {r['variants']} variants x {len(props)} properties = {r['runs']} runs, {len(r['alarms'])} alarms")
     seen = set()
